@@ -324,6 +324,20 @@ var specs = map[string]Spec{
 		QuickFloors: map[string]int64{"rpcs": 3000, "denied": 500, "forwarded": 1000},
 		MaxSamples:  2,
 	},
+	"C11": {
+		Engine: "wire", Run: "^TestMuxRPC$", Race: true,
+		RaceViolation: regexp.MustCompile(`MultiClientConn\)|multiMuxManager\)`),
+		QuickShards: 12, ThoroughShards: 16, QuickWatchdog: 10 * time.Minute, ThoroughWatchdog: 90 * time.Minute,
+		Level:     "exploration",
+		LevelText: "The real MultiClientConn is driven by the real GRPCMuxManager (receiver role) over loopback TCP + yamux. Harness peers connect, serve a tagged gRPC server on their session and die on a seeded script (add, kill, flap = die right after establishment, kill all, replace = kill and add at once) while three client goroutines issue RPCs continuously. After every update, at a quiescent point reached by polling state (not by sleeping), the set of registered sessions must equal the number of live peer sessions, the endpoint keys the client connection may dial (MultiClientConn.Describe) must equal the registered keys, and CanMakeCalls must equal 'set non-empty'; a fresh RPC must then succeed if a session is alive and fail with Unavailable/DeadlineExceeded if none is; over the whole history every successful RPC must have been served by a peer whose session was alive during the call.",
+		LevelNote: "Real time and sockets. A state that is still wrong after the live-peer set has been stable for 8 s is a violation by state (stale set); transport hiccups shorter than that are tolerated by polling. gRPC's own balancer is in the loop (round robin over the resolver's endpoints).",
+		Technique: "runtime monitor: state-equality oracle at polled quiescent points + availability probes + served-by-live-session check over the recorded RPC history, race detector",
+		DesignRef: "DESIGN.md §4 C11",
+		Rule:      "cases = seeded update sequences of 14 operations for pool sizes 1-3; distinct = cases; all non-trivial",
+		Assumptions: []string{"peers are yamux clients running a gRPC server on the session; the proxy side is the real receiver provider"},
+		QuickFloors: map[string]int64{"updates": 60, "quiescent_points_checked": 60, "rpcs_ok": 150},
+		MaxSamples:  2,
+	},
 	"C05": {
 		Engine: "ringmodel", Run: "^TestRing$", Race: false,
 		QuickShards: 16, ThoroughShards: 16, QuickWatchdog: 5 * time.Minute, ThoroughWatchdog: 40 * time.Minute,
